@@ -122,7 +122,9 @@ func hasToken(d map[string]string, token string) bool {
 
 func getDurationDirective(d map[string]string, token string) (dur time.Duration, valid bool) {
 	if v, ok := d[token]; ok {
-		return RawDeltaSeconds(v).Value()
+		// The argument may be given as a token or as a quoted-string
+		// (max-age=10 and max-age="10" are equivalent, RFC 9111 §5.2).
+		return RawDeltaSeconds(ParseQuotedString(v)).Value()
 	}
 	return
 }
